@@ -244,8 +244,21 @@ fn tweaks() -> Vec<(&'static str, bool, TweakFn)> {
 
 type Obs = Vec<(String, Vec<String>)>;
 
-fn num(o: &mut Obs, name: &str, r: Option<Vec<f64>>) {
-  o.push((name.to_string(), match r {
+thread_local! {
+  /// when set, only the observable of this name is evaluated (the others are skipped, not computed)
+  static ONLY: std::cell::RefCell<Option<String>> = const { std::cell::RefCell::new(None) };
+}
+fn wanted(name: &str) -> bool {
+  ONLY.with(|f| match &*f.borrow() {
+    None => true,
+    Some(n) => n == name,
+  })
+}
+fn num(o: &mut Obs, name: &str, f: impl FnOnce() -> Vec<f64>) {
+  if !wanted(name) {
+    return;
+  }
+  o.push((name.to_string(), match guard(f) {
     Some(v) => v.iter().map(|x| fl(*x)).collect(),
     None => vec!["PANIC".to_string()],
   }));
@@ -300,6 +313,23 @@ struct Spec {
   gen: usize,
   divs: usize,
   gl: bool,
+  /// the spectrum object used for the singles (coarse 2-D rule), same life time as `sp`
+  sps: Option<JointSpectrum>,
+  sps_gen: usize,
+}
+impl Spec {
+  fn new() -> Self {
+    Spec { sp: None, gen: usize::MAX, divs: 0, gl: false, sps: None, sps_gen: usize::MAX }
+  }
+}
+
+fn singles_spectrum<'a>(c: &Case, cache: &'a mut Spec) -> Option<&'a JointSpectrum> {
+  if cache.sps.is_none() || cache.sps_gen != c.gen {
+    let s = c.spdc.clone();
+    cache.sps = guard(move || s.joint_spectrum(Integrator::Simpson { divs: 4 }));
+    cache.sps_gen = c.gen;
+  }
+  cache.sps.as_ref()
 }
 
 fn spectrum<'a>(c: &Case, cache: &'a mut Spec) -> Option<&'a JointSpectrum> {
@@ -332,207 +362,205 @@ fn observe(mode: &str, c: &Case, cache: &mut Spec) -> Obs {
     "c01" => {
       for (nm, b) in [("signal", &*s.signal), ("idler", &*s.idler), ("pump", &*s.pump)] {
         let l = b.vacuum_wavelength();
-        num(&mut o, &format!("get_indices/{}", nm), guard(|| {
+        num(&mut o, &format!("get_indices/{}", nm), || {
           let i = cs.crystal.get_indices(l, cs.temperature).value_unsafe;
           vec![i.x, i.y, i.z]
-        }));
+        });
       }
     }
     "c02" => {
       for (nm, b) in [("signal", &*s.signal), ("idler", &*s.idler), ("pump", &*s.pump)] {
-        num(&mut o, &format!("refractive_index/{}", nm), guard(|| vec![b.refractive_index(b.frequency(), cs).value_unsafe]));
-        num(&mut o, &format!("walkoff/{}", nm), guard(|| vec![b.walkoff_angle(cs).value_unsafe]));
-        num(&mut o, &format!("index_along/{}", nm), guard(|| {
+        num(&mut o, &format!("refractive_index/{}", nm), || vec![b.refractive_index(b.frequency(), cs).value_unsafe]);
+        num(&mut o, &format!("walkoff/{}", nm), || vec![b.walkoff_angle(cs).value_unsafe]);
+        num(&mut o, &format!("index_along/{}", nm), || {
           vec![
             cs.index_along(b.vacuum_wavelength(), b.direction(), spdcalc::PolarizationType::Ordinary).value_unsafe,
             cs.index_along(b.vacuum_wavelength(), b.direction(), spdcalc::PolarizationType::Extraordinary).value_unsafe,
           ]
-        }));
+        });
       }
     }
     "c03" => {
       for (k, (a, b)) in prs.iter().enumerate() {
-        num(&mut o, &format!("delta_k/{}", k), guard(|| {
+        num(&mut o, &format!("delta_k/{}", k), || {
           let d = s.delta_k(w(*a), w(*b));
           let d = d.value_unsafe;
           vec![d.x, d.y, d.z]
-        }));
+        });
       }
-      num(&mut o, "try_new_optimum", guard(|| match IdlerBeam::try_new_optimum(&s.signal, &s.pump, cs, &s.pp) {
+      num(&mut o, "try_new_optimum", || match IdlerBeam::try_new_optimum(&s.signal, &s.pump, cs, &s.pp) {
         Ok(i) => beam_tokens(&i),
         Err(_) => vec![f64::NAN],
-      }));
-      num(&mut o, "optimum_idler", guard(|| match s.optimum_idler() {
+      });
+      num(&mut o, "optimum_idler", || match s.optimum_idler() {
         Ok(i) => beam_tokens(&i),
         Err(_) => vec![f64::NAN],
-      }));
-      num(&mut o, "with_optimum_idler", guard(|| match s.clone().with_optimum_idler() {
+      });
+      num(&mut o, "with_optimum_idler", || match s.clone().with_optimum_idler() {
         Ok(t) => beam_tokens(&t.idler),
         Err(_) => vec![f64::NAN],
-      }));
+      });
       for (nm, b) in [("signal", &*s.signal), ("idler", &*s.idler)] {
-        num(&mut o, &format!("wavevector/{}", nm), guard(|| {
+        num(&mut o, &format!("wavevector/{}", nm), || {
           let k = b.wavevector(b.frequency(), cs).value_unsafe;
           vec![k.x, k.y, k.z]
-        }));
+        });
       }
     }
     "c04" => {
-      num(&mut o, "optimum_poling_period", guard(|| match optimum_poling_period(&s.signal, &s.pump, cs) {
+      num(&mut o, "optimum_poling_period", || match optimum_poling_period(&s.signal, &s.pump, cs) {
         Ok(p) => vec![p.value_unsafe],
         Err(_) => vec![f64::NAN],
-      }));
-      num(&mut o, "optimum_periodic_poling", guard(|| match s.optimum_periodic_poling() {
+      });
+      num(&mut o, "optimum_periodic_poling", || match s.optimum_periodic_poling() {
         Ok(PeriodicPoling::On { period, sign, .. }) => vec![period.value_unsafe, if sign == Sign::POSITIVE { 1.0 } else { -1.0 }],
         Ok(PeriodicPoling::Off) => vec![f64::INFINITY],
         Err(_) => vec![f64::NAN],
-      }));
-      num(&mut o, "with_optimum_periodic_poling", guard(|| match s.clone().with_optimum_periodic_poling() {
+      });
+      num(&mut o, "with_optimum_periodic_poling", || match s.clone().with_optimum_periodic_poling() {
         Ok(t) => setup_tokens(&t),
         Err(_) => vec![f64::NAN],
-      }));
+      });
       if matches!(s.pp, PeriodicPoling::Off) {
-        num(&mut o, "optimum_theta", guard(|| vec![cs.optimum_theta(&s.signal, &s.pump).value_unsafe]));
-        num(&mut o, "optimum_crystal_theta", guard(|| vec![s.optimum_crystal_theta().value_unsafe]));
-        num(&mut o, "with_optimum_crystal_theta", guard(|| setup_tokens(&s.clone().with_optimum_crystal_theta())));
+        num(&mut o, "optimum_theta", || vec![cs.optimum_theta(&s.signal, &s.pump).value_unsafe]);
+        num(&mut o, "optimum_crystal_theta", || vec![s.optimum_crystal_theta().value_unsafe]);
+        num(&mut o, "with_optimum_crystal_theta", || setup_tokens(&s.clone().with_optimum_crystal_theta()));
       }
     }
     "c05" | "c06" => {
       for (k, (a, b)) in prs.iter().enumerate() {
-        num(&mut o, &format!("phasematch_fiber_coupling/{}", k), guard(|| cxv(phasematch_fiber_coupling(w(*a), w(*b), s, integ).value_unsafe)));
+        num(&mut o, &format!("phasematch_fiber_coupling/{}", k), || cxv(phasematch_fiber_coupling(w(*a), w(*b), s, integ).value_unsafe));
       }
       if mode == "c06" {
         let sw = guard(|| s.clone().with_swapped_signal_idler());
         if let Some(sw) = sw {
           for (k, (a, b)) in prs.iter().enumerate() {
-            num(&mut o, &format!("swapped/phasematch/{}", k), guard(|| cxv(phasematch_fiber_coupling(w(*b), w(*a), &sw, integ).value_unsafe)));
+            num(&mut o, &format!("swapped/phasematch/{}", k), || cxv(phasematch_fiber_coupling(w(*b), w(*a), &sw, integ).value_unsafe));
           }
-          num(&mut o, "swapped/counts_singles_signal", guard(|| vec![sw.counts_singles_signal(FrequencySpace::new((w(c.a.i0), w(c.a.i1), c.a.ni), (w(c.a.s0), w(c.a.s1), c.a.ns)), Integrator::Simpson { divs: 4 }).value_unsafe]));
+          num(&mut o, "swapped/counts_singles_signal", || vec![sw.counts_singles_signal(FrequencySpace::new((w(c.a.i0), w(c.a.i1), c.a.ni), (w(c.a.s0), w(c.a.s1), c.a.ns)), Integrator::Simpson { divs: 4 }).value_unsafe]);
         }
-        num(&mut o, "counts_singles_idler", guard(|| vec![s.counts_singles_idler(grid, Integrator::Simpson { divs: 4 }).value_unsafe]));
+        num(&mut o, "counts_singles_idler", || vec![s.counts_singles_idler(grid, Integrator::Simpson { divs: 4 }).value_unsafe]);
       }
     }
     "c07" | "c08" | "c20" | "c14" => {
       let wp = s.pump.frequency().value_unsafe;
       if mode == "c07" {
-        num(&mut o, "pump_spectral_amplitude", guard(|| {
+        num(&mut o, "pump_spectral_amplitude", || {
           prs.iter().map(|(a, b)| pump_spectral_amplitude(w(a + b), s)).chain([pump_spectral_amplitude(w(wp), s)]).collect()
-        }));
+        });
         for (k, (a, b)) in prs.iter().enumerate() {
-          num(&mut o, &format!("jsa_raw/{}", k), guard(|| cxv(jsa_raw(w(*a), w(*b), s, integ))));
+          num(&mut o, &format!("jsa_raw/{}", k), || cxv(jsa_raw(w(*a), w(*b), s, integ)));
         }
       }
       let single = Integrator::Simpson { divs: 4 };
       if let Some(sp) = spectrum(c, cache) {
         for (k, (a, b)) in prs.iter().enumerate() {
-          num(&mut o, &format!("jsa/{}", k), guard(|| cxv(sp.jsa(w(*a), w(*b)))));
-          num(&mut o, &format!("jsi/{}", k), guard(|| vec![sp.jsi(w(*a), w(*b)).value_unsafe]));
+          num(&mut o, &format!("jsa/{}", k), || cxv(sp.jsa(w(*a), w(*b))));
+          num(&mut o, &format!("jsi/{}", k), || vec![sp.jsi(w(*a), w(*b)).value_unsafe]);
           if mode != "c14" {
-            num(&mut o, &format!("jsa_normalized/{}", k), guard(|| cxv(sp.jsa_normalized(w(*a), w(*b)))));
-            num(&mut o, &format!("jsi_normalized/{}", k), guard(|| vec![sp.jsi_normalized(w(*a), w(*b))]));
+            num(&mut o, &format!("jsa_normalized/{}", k), || cxv(sp.jsa_normalized(w(*a), w(*b))));
+            num(&mut o, &format!("jsi_normalized/{}", k), || vec![sp.jsi_normalized(w(*a), w(*b))]);
           }
         }
-        num(&mut o, "jsa_range", guard(|| sp.jsa_range(grid).iter().flat_map(|z| [z.re, z.im]).collect()));
-        num(&mut o, "jsi_range", guard(|| sp.jsi_range(grid).iter().map(|x| x.value_unsafe).collect()));
+        num(&mut o, "jsa_range", || sp.jsa_range(grid).iter().flat_map(|z| [z.re, z.im]).collect());
+        num(&mut o, "jsi_range", || sp.jsi_range(grid).iter().map(|x| x.value_unsafe).collect());
         if mode == "c20" || mode == "c07" {
-          num(&mut o, "jsi_normalized_range", guard(|| sp.jsi_normalized_range(grid)));
+          num(&mut o, "jsi_normalized_range", || sp.jsi_normalized_range(grid));
         }
       } else {
         o.push(("joint_spectrum".into(), vec!["PANIC".into()]));
       }
       if mode != "c14" {
         // the singles need the 2-D integral: a coarse rule keeps the family cheap
-        let s2 = s.clone();
-        let sps = guard(move || s2.joint_spectrum(single));
-        if let Some(sps) = sps {
+        if let Some(sps) = singles_spectrum(c, cache) {
           let (a, b) = prs[0];
-          num(&mut o, "jsi_singles", guard(|| vec![sps.jsi_singles(w(a), w(b)).value_unsafe]));
-          num(&mut o, "jsi_singles_normalized", guard(|| vec![sps.jsi_singles_normalized(w(a), w(b))]));
+          num(&mut o, "jsi_singles", || vec![sps.jsi_singles(w(a), w(b)).value_unsafe]);
+          num(&mut o, "jsi_singles_normalized", || vec![sps.jsi_singles_normalized(w(a), w(b))]);
           let g2 = FrequencySpace::new((w(c.a.s0), w(c.a.s1), 2), (w(c.a.i0), w(c.a.i1), 2));
-          num(&mut o, "jsi_singles_idler_range", guard(|| sps.jsi_singles_idler_range(g2).iter().map(|x| x.value_unsafe).collect()));
+          num(&mut o, "jsi_singles_idler_range", || sps.jsi_singles_idler_range(g2).iter().map(|x| x.value_unsafe).collect());
           if mode == "c20" {
-            num(&mut o, "jsi_singles_idler_normalized_range", guard(|| sps.jsi_singles_idler_normalized_range(g2)));
-            num(&mut o, "jsi_singles_normalized_range", guard(|| sps.jsi_singles_normalized_range(g2)));
+            num(&mut o, "jsi_singles_idler_normalized_range", || sps.jsi_singles_idler_normalized_range(g2));
+            num(&mut o, "jsi_singles_normalized_range", || sps.jsi_singles_normalized_range(g2));
           }
         }
-        num(&mut o, "phasematch_singles", guard(|| vec![phasematch_singles_fiber_coupling(w(prs[0].0), w(prs[0].1), s, single).value_unsafe]));
+        num(&mut o, "phasematch_singles", || vec![phasematch_singles_fiber_coupling(w(prs[0].0), w(prs[0].1), s, single).value_unsafe]);
         if mode == "c07" || mode == "c08" {
-          num(&mut o, "counts_coincidences", guard(|| vec![s.counts_coincidences(grid, integ).value_unsafe]));
+          num(&mut o, "counts_coincidences", || vec![s.counts_coincidences(grid, integ).value_unsafe]);
           let g2 = FrequencySpace::new((w(c.a.s0), w(c.a.s1), 2), (w(c.a.i0), w(c.a.i1), 2));
-          num(&mut o, "counts_singles_signal", guard(|| vec![s.counts_singles_signal(g2, single).value_unsafe]));
-          num(&mut o, "counts_singles_idler", guard(|| vec![s.counts_singles_idler(g2, single).value_unsafe]));
-          num(&mut o, "efficiencies", guard(|| {
+          num(&mut o, "counts_singles_signal", || vec![s.counts_singles_signal(g2, single).value_unsafe]);
+          num(&mut o, "counts_singles_idler", || vec![s.counts_singles_idler(g2, single).value_unsafe]);
+          num(&mut o, "efficiencies", || {
             let e = s.efficiencies(g2, single);
             vec![e.symmetric, e.signal, e.idler, e.coincidences.value_unsafe, e.signal_singles.value_unsafe, e.idler_singles.value_unsafe]
-          }));
+          });
         }
       }
       if mode == "c20" {
-        num(&mut o, "try_as_optimum", guard(|| match s.clone().try_as_optimum() {
+        num(&mut o, "try_as_optimum", || match s.clone().try_as_optimum() {
           Ok(t) => setup_tokens(&t),
           Err(_) => vec![f64::NAN],
-        }));
+        });
       }
     }
     "c09" => {
       let t: Vec<Time> = c.a.delays.iter().map(|x| *x * S).collect();
       let t2 = t.clone();
-      num(&mut o, "hom_rate_series", guard(|| s.hom_rate_series(t2, grid, integ)));
-      num(&mut o, "hom_visibility", guard(|| {
+      num(&mut o, "hom_rate_series", || s.hom_rate_series(t2, grid, integ));
+      num(&mut o, "hom_visibility", || {
         let (d, v) = s.hom_visibility(grid, integ);
         vec![d.value_unsafe, v]
-      }));
+      });
       if let Some(sp) = spectrum(c, cache) {
-        num(&mut o, "array/hom_rate_series", guard(|| {
+        num(&mut o, "array/hom_rate_series", || {
           let f = sp.jsa_range(grid);
           let g: Vec<Complex<f64>> = grid.as_steps().into_iter().map(|(a, b)| sp.jsa(b, a)).collect();
           spdcalc::hom_rate_series(grid, &f, &g, t)
-        }));
+        });
       }
     }
     "c10" => {
       let t: Vec<Time> = c.a.delays.iter().map(|x| *x * S).collect();
-      num(&mut o, "hom_two_source_rate_series", guard(|| {
+      num(&mut o, "hom_two_source_rate_series", || {
         let r = s.hom_two_source_rate_series(t, grid, integ);
         r.ss.iter().chain(r.ii.iter()).chain(r.si.iter()).copied().collect()
-      }));
-      num(&mut o, "hom_two_source_visibilities", guard(|| {
+      });
+      num(&mut o, "hom_two_source_visibilities", || {
         let r = s.hom_two_source_visibilities(grid, integ);
         vec![r.ss.0.value_unsafe, r.ss.1, r.ii.0.value_unsafe, r.ii.1, r.si.0.value_unsafe, r.si.1]
-      }));
+      });
     }
     "c11" => {
       if let Some(sp) = spectrum(c, cache) {
-        num(&mut o, "spectrum.schmidt_number", guard(|| vec![sp.schmidt_number(grid).unwrap_or(f64::NAN)]));
-        num(&mut o, "schmidt_number(jsa_range)", guard(|| vec![spdcalc::math::schmidt_number(sp.jsa_range(grid)).unwrap_or(f64::NAN)]));
+        num(&mut o, "spectrum.schmidt_number", || vec![sp.schmidt_number(grid).unwrap_or(f64::NAN)]);
+        num(&mut o, "schmidt_number(jsa_range)", || vec![spdcalc::math::schmidt_number(sp.jsa_range(grid)).unwrap_or(f64::NAN)]);
       }
     }
     "c13" => {
       for (nm, b) in [("signal", &*s.signal), ("idler", &*s.idler)] {
-        num(&mut o, &format!("theta_external/{}", nm), guard(|| vec![b.theta_external(cs).value_unsafe]));
-        num(&mut o, &format!("set_theta_external/{}", nm), guard(|| {
+        num(&mut o, &format!("theta_external/{}", nm), || vec![b.theta_external(cs).value_unsafe]);
+        num(&mut o, &format!("set_theta_external/{}", nm), || {
           let mut b2 = b.clone();
           b2.set_theta_external(c.a.theta_e_deg * DEG, cs);
           let d = b2.direction();
           vec![b2.theta_internal().value_unsafe, b2.theta_external(cs).value_unsafe, b2.phi().value_unsafe, d.x, d.y, d.z]
-        }));
-        num(&mut o, &format!("calc_internal/{}", nm), guard(|| vec![Beam::calc_internal_theta_from_external(b, c.a.theta_e_deg * DEG, cs).value_unsafe]));
+        });
+        num(&mut o, &format!("calc_internal/{}", nm), || vec![Beam::calc_internal_theta_from_external(b, c.a.theta_e_deg * DEG, cs).value_unsafe]);
       }
-      num(&mut o, "optimal_waist_positions", guard(|| {
+      num(&mut o, "optimal_waist_positions", || {
         let t = s.clone().with_optimal_waist_positions();
         vec![t.signal_waist_position.value_unsafe, t.idler_waist_position.value_unsafe]
-      }));
+      });
     }
     "c16" | "c17" => {
-      num(&mut o, "as_config", guard(|| {
+      num(&mut o, "as_config", || {
         let cfg = s.clone().as_config();
         let v = serde_json::to_value(&cfg).unwrap();
         let mut out = Vec::new();
         json_numbers(&v, &mut out);
         out
-      }));
+      });
       // the "auto" route of the configuration
-      num(&mut o, "config_auto_route", guard(|| {
+      num(&mut o, "config_auto_route", || {
         let cfg = s.clone().as_config();
         let mut v = serde_json::to_value(&cfg).unwrap();
         v["idler"] = serde_json::Value::String("auto".into());
@@ -549,10 +577,10 @@ fn observe(mode: &str, c: &Case, cache: &mut Spec) -> Obs {
           },
           Err(_) => vec![f64::NEG_INFINITY],
         }
-      }));
+      });
       if mode == "c17" {
         if let Some(sp) = spectrum(c, cache) {
-          num(&mut o, "jsi_range", guard(|| sp.jsi_range(grid).iter().map(|x| x.value_unsafe).collect()));
+          num(&mut o, "jsi_range", || sp.jsi_range(grid).iter().map(|x| x.value_unsafe).collect());
         }
       }
     }
@@ -572,25 +600,25 @@ fn observe(mode: &str, c: &Case, cache: &mut Spec) -> Obs {
         ("cc", Integrator::ClenshawCurtis { tolerance: 1e-8 }),
       ];
       for (nm, r) in rules.iter() {
-        num(&mut o, &format!("integrate/{}", nm), guard(|| cxv(r.integrate(f1, -0.4, 1.3))));
+        num(&mut o, &format!("integrate/{}", nm), || cxv(r.integrate(f1, -0.4, 1.3)));
         if *nm != "cc" {
-          num(&mut o, &format!("integrate2d/{}", nm), guard(|| cxv(r.integrate2d(f2, -0.4, 1.3, 0.2, 0.9))));
+          num(&mut o, &format!("integrate2d/{}", nm), || cxv(r.integrate2d(f2, -0.4, 1.3, 0.2, 0.9)));
         }
       }
     }
     "c18" => {
       let t0 = cs.temperature.value_unsafe - 273.15;
       let steps = Steps2D((t0, t0 + 30.0, 3), (c.a.theta_e_deg, c.a.theta_e_deg + 1.0, 2));
-      num(&mut o, "sweep/temperature_x_theta_external", guard(|| match SPDCIter::try_new(s.clone(), "crystal.temperature_c", "signal.theta_external_deg", steps) {
+      num(&mut o, "sweep/temperature_x_theta_external", || match SPDCIter::try_new(s.clone(), "crystal.temperature_c", "signal.theta_external_deg", steps) {
         Ok(it) => it.into_iter().flat_map(|x| setup_tokens(&x)).collect(),
         Err(_) => vec![f64::NAN],
-      }));
+      });
       let l = cs.length.value_unsafe * 1e6;
       let steps2 = Steps2D((l, 1.2 * l, 2), (s.signal_waist_position.value_unsafe * 1e6, s.signal_waist_position.value_unsafe * 1e6 - 0.1 * l, 3));
-      num(&mut o, "sweep/jsi_values/length_x_waist_position", guard(|| match SPDCIter::try_new(s.clone(), "crystal.length_um", "signal.waist_position_um", steps2) {
+      num(&mut o, "sweep/jsi_values/length_x_waist_position", || match SPDCIter::try_new(s.clone(), "crystal.length_um", "signal.waist_position_um", steps2) {
         Ok(it) => it.jsi_values(integ),
         Err(_) => vec![f64::NAN],
-      }));
+      });
     }
     _ => {}
   }
@@ -713,11 +741,12 @@ fn child(seed: u64, mode: &str, b: usize) {
     None => return,
   };
   let tw = tweaks();
-  let mut cache = Spec { sp: None, gen: usize::MAX, divs: 0, gl: false };
+  let mut cache = Spec::new();
   if mode != "c12" {
     for (j, big) in tweak_list(mode) {
       if let Some(c) = apply(&base, &tw[j], big, 2 * j + big as usize) {
-        let o = observe(mode, &c, &mut cache);
+        let mut fresh = Spec::new(); // no object is shared between tweaks in the reference process
+        let o = observe(mode, &c, &mut fresh);
         print_obs(&mut out, &key(j, big), &o);
       }
     }
@@ -823,7 +852,7 @@ pub fn run(ctx: &mut Ctx) {
       continue;
     }
     // this process: base, t_1, base, t_2, …
-    let mut cache = Spec { sp: None, gen: usize::MAX, divs: 0, gl: false };
+    let mut cache = Spec::new();
     let mut judge = |ctx: &mut Ctx, tag: &str, o: &Obs, what: &str| {
       for (name, toks) in o {
         ctx.count("hist/observable");
@@ -862,7 +891,7 @@ pub fn run(ctx: &mut Ctx) {
       let r = guard(move || {
         rayon::ThreadPoolBuilder::new().num_threads(k).build().map(|p| {
           p.install(move || {
-            let mut cache = Spec { sp: None, gen: usize::MAX, divs: 0, gl: false };
+            let mut cache = Spec::new();
             observe(&m2, &b2, &mut cache)
           })
         })
@@ -875,13 +904,37 @@ pub fn run(ctx: &mut Ctx) {
     if mode == "c12" {
       continue;
     }
+    let names: Vec<String> = o0.iter().map(|x| x.0.clone()).collect();
+    let uses_spectrum = !matches!(mode.as_str(), "c01" | "c02" | "c03" | "c04" | "c05" | "c06" | "c12" | "c13" | "c18");
     for (j, big) in tweak_list(&mode) {
       if let Some(c) = apply(&base, &tw[j], big, 2 * j + big as usize) {
         ctx.count(&format!("hist/tweak/{}", tw[j].0));
-        let o = observe(&mode, &c, &mut cache);
-        judge(ctx, &key(j, big), &o, "tweak_right_after_base");
-        let ob = observe(&mode, &base, &mut cache);
-        judge(ctx, "base", &ob, "base_after_tweak");
+        // an argument-only tweak is made on the SAME spectrum object as the base call (object-level memos);
+        // a setup tweak (or another integrator) needs its own object, built right after a fresh one for the base
+        let own_object = tw[j].1 || tw[j].0.starts_with("arg_integrator");
+        let mut cache_t = Spec::new();
+        if uses_spectrum {
+          cache = Spec::new();
+          let _ = spectrum(&base, &mut cache);
+          if own_object {
+            let _ = spectrum(&c, &mut cache_t);
+          }
+          if mode != "c14" && mode != "c09" && mode != "c10" && mode != "c11" && mode != "c16" && mode != "c17" {
+            let _ = singles_spectrum(&base, &mut cache);
+            if own_object {
+              let _ = singles_spectrum(&c, &mut cache_t);
+            }
+          }
+        }
+        // every observable on its own: base, then the tweaked case, back to back
+        for name in names.iter() {
+          ONLY.with(|f| *f.borrow_mut() = Some(name.clone()));
+          let ob = observe(&mode, &base, &mut cache);
+          let ot = if own_object { observe(&mode, &c, &mut cache_t) } else { observe(&mode, &c, &mut cache) };
+          ONLY.with(|f| *f.borrow_mut() = None);
+          judge(ctx, "base", &ob, "base_before_tweak");
+          judge(ctx, &key(j, big), &ot, "tweak_right_after_base");
+        }
       }
     }
   }
